@@ -53,6 +53,21 @@ class Svc(rpyc.Service):
     exposed_attr = 42
 
 
+MIXED = []
+
+
+def mixed_forms_against_model(ctx):
+    """the model's decoder on the same mixed-form encodings the implementation was given (C04's decode correspondence: same outcome,
+    same value); c19_accepts_any_admitted_encoding says the model reads each back, values_phase checked that the implementation does"""
+    from harness.C04 import gen_params, check_decode
+    model = C.Model("brine")
+    if not model.available() or not MIXED:
+        return
+    check_decode(ctx, model, [b for b, _ in MIXED], gen_params())
+    ctx.count("mixed-form-encodings-through-model", len(MIXED))
+    del MIXED[:]
+
+
 def values_phase(ctx, n):
     r = ctx.rng
     for i in range(n):
@@ -81,8 +96,13 @@ def values_phase(ctx, n):
             ctx.violation("value-encoding-differs-from-published:" + cv[0], {"value_sx": C.sx_dumps(to_sx(v)), "repr": short(v, 200)},
                           observed=real[:64].hex(), expected=(ref or b"")[:64].hex(), what="emitted bytes differ from the published (shortest-form) encoding")
         # every admissible alternative form must be accepted and mean the same
-        for form in ("l1", "l4"):
-            alt = R.enc(v, form, ext_surrogates=ext)
+        for form in ("l1", "l4", "mix", "mix"):
+            if form == "mix":       # a fresh choice at every node: the encodings [admits] of proofs/AdmitsP.v describes
+                alt = R.enc(v, lambda: r.choice(("short", "l1", "l4")), ext_surrogates=ext)
+                if not ext and not too_big_int(v):
+                    MIXED.append((alt, cv))
+            else:
+                alt = R.enc(v, form, ext_surrogates=ext)
             try:
                 back = brine.load(alt)
                 ok = canon(back) == cv
@@ -327,6 +347,7 @@ def run(ctx):
                                   "frames for payload sizes around threshold/chunk with both compression settings on both sides; scripted request/response conversations "
                                   "between the reference peer (each of 3 forms x 2 compression choices) and a real Connection, both directions")
     values_phase(ctx, 700 if ctx.quick else 20000)
+    mixed_forms_against_model(ctx)
     frames_phase(ctx, 30 if ctx.quick else 600)
     for i in range(6 if ctx.quick else 120):
         form = ("short", "l1", "l4")[i % 3]
